@@ -197,6 +197,7 @@ Proof.
   - eexists. split; [exact Et|]. repeat split; assumption.
   - exists (tab_xref d (Save.blen pre0)), (norm_dict (trailer_table d)), [].
     split; [reflexivity|]. split; [reflexivity|]. split; [apply swap_remove_absent_get; exact Hprev|].
+    split; [rewrite norm_trailer_get by discriminate; rewrite Hstm; reflexivity|].
     intro rest. split; [apply tab_file_section; assumption|]. rewrite Hprev. apply clt_nil. intros p E. discriminate E.
   - rewrite norm_trailer_get by discriminate. rewrite Hstm. reflexivity.
   - unfold dict_has. change Loader.K_Encrypt with Save.K_Encrypt. rewrite norm_trailer_get by discriminate.
@@ -325,6 +326,7 @@ Proof.
   - rewrite rev_start_len. unfold pre0, Loader.blen. rewrite !app_length. lia.
   - intro rest. rewrite <- Esuf. apply tab_file_section; assumption.
   - change Xref.K_Prev with Save.K_Prev. rewrite norm_trailer_get by discriminate. rewrite Hp. reflexivity.
+  - rewrite norm_trailer_get by discriminate. rewrite Hstm. reflexivity.
   - rewrite dict_get_swap_remove_other by (try exact Hwf; discriminate).
     rewrite norm_trailer_get by discriminate. rewrite Hstm. reflexivity.
   - unfold dict_has. rewrite dict_get_swap_remove_other by (try exact Hwf; discriminate).
